@@ -116,9 +116,10 @@ class Run:
         self.exhaustive: Optional[bool] = None
         self.notes: List[str] = []
         known = load_known()
-        self.known_open = {
-            f["key"]: f for f in known.get("findings", []) if f.get("property") == pid and f.get("status", "open") == "open"
-        }
+        # A finding is identified by `id`; it matches root-cause keys listed in `keys` (exact) or `key_patterns` (regex, fullmatch).
+        self.findings = [f for f in known.get("findings", []) if pid in f.get("properties", [f.get("property")]) and f.get("status", "open") == "open"]
+        self.known_open = {f["id"]: f for f in self.findings}
+        self._known_cache: Dict[str, Optional[str]] = {}
         # Keys a previous campaign of this same run already reported: skipped so the search continues.
         self.session_excluded: set = set()
 
@@ -144,14 +145,27 @@ class Run:
         self.samples.append(jsonable(x))
 
     # -- verdicts ---------------------------------------------------------
+    def known_id(self, key: str) -> Optional[str]:
+        import re
+
+        if key not in self._known_cache:
+            hit = None
+            for f in self.findings:
+                if key in f.get("keys", []) or any(re.fullmatch(p, key) for p in f.get("key_patterns", [])):
+                    hit = f["id"]
+                    break
+            self._known_cache[key] = hit
+        return self._known_cache[key]
+
     def is_known(self, key: str) -> bool:
-        return key in self.known_open
+        return self.known_id(key) is not None
 
     def fail(self, key: str, case: Any, detail: str = "") -> bool:
         """Record a failing case from a plain loop. Returns True if it is a known finding."""
-        if key in self.known_open:
-            self.excluded_known[key] += 1
-            self.known_samples.setdefault(key, jsonable(case))
+        kid = self.known_id(key)
+        if kid is not None:
+            self.excluded_known[kid] += 1
+            self.known_samples.setdefault(kid, jsonable(case))
             return True
         v = self.violations.setdefault(key, {"case": jsonable(case), "detail": detail, "count": 0})
         v["count"] += 1
@@ -159,9 +173,10 @@ class Run:
 
     def hyp_fail(self, key: str, case: Any, detail: str = "") -> None:
         """Inside a Hypothesis body: continue past known findings, raise Found otherwise."""
-        if key in self.known_open:
-            self.excluded_known[key] += 1
-            self.known_samples.setdefault(key, jsonable(case))
+        kid = self.known_id(key)
+        if kid is not None:
+            self.excluded_known[kid] += 1
+            self.known_samples.setdefault(kid, jsonable(case))
             return
         if key in self.session_excluded:
             self.violations[key]["count"] += 1
